@@ -91,6 +91,14 @@ def obligations(tier):
         ob.bounds += '; the stream is CUT at every length k <= its size (exact-size heap object; k = size is the complete stream); no value assertions'
         o.append(ob)
     o.append(skip_depth())
+    # DELTA_BYTE_ARRAY / DELTA_LENGTH_BYTE_ARRAY on hostile length streams (well-formed length blocks carrying arbitrary int32 lengths)
+    DSTR = DELTA + ['src/encoding/delta_length.c', 'src/encoding/delta_strings.c']
+    for mode, nm in ((1, 'delta-byte-array'), (2, 'delta-length-byte-array')):
+        for nv in ([2] if q else [1, 2, 3]):
+            o.append(E2('%s-hostile-lengths/n%d' % (nm, nv), 'harness/e2/c08_dstr.c', DSTR, ['-DMODE=%d' % mode, '-DNV=%d' % nv], ref=['ref_delta.c', 'ref_rle.c'], leaks=True, timeout=600,
+                        max_paths=200000, fork_max=16,
+                        bounds='%d prefix / suffix length(s), each one of {0, 1, 2, -1, INT32_MAX, INT32_MIN, symbolic near INT32_MAX, symbolic 0..3}, in well-formed DELTA_BINARY_PACKED '
+                               'blocks of the reference encoder; 3 symbolic data bytes; work buffer of 8 bytes; any status accepted; memory safety, leaks, consumed <= given' % nv))
     for ng in C13_e1.nesting_guard(tier):
         ng.name = 'thrift-' + ng.name
         o.append(ng)
